@@ -177,12 +177,18 @@ def make_op(ctx, kind, state, vals_new, fresh):
         for suffix in ('0', '1'):
             a = agent()
             d.append({'key': first + suffix, 'processes': a['processes'],
-                      'topology': a['topology'], 'initial_state': {}})
+                      'topology': a['topology'],
+                      # the first daughter is listed with a state of her own
+                      'initial_state': {'s': {'x': vals_new}}
+                      if suffix == '0' else {}})
         return ({'loc1': {'_divide': {'mother': first, 'daughters': d}}},
                 [('loc1', first)],
                 [('loc1', first + '0'), ('loc1', first + '1')],
                 {'daughters': [(('loc1', first + s), d[i]['processes'])
-                               for i, s in enumerate('01')]})
+                               for i, s in enumerate('01')],
+                 'daughter_state': (('loc1', first + '0', 's', 'x'),
+                                    ('loc1', first + '1', 's', 'x'),
+                                    ('loc1', first, 's', 'x'))})
     if label == 'move':
         return ({'loc1': {'_move': [{'source': (first,),
                                      'target': ('loc2',)}]}},
@@ -339,6 +345,10 @@ def body(ctx, cfg):
                 sn = after.get(pth + ('idle',))
                 cr.append(sn is not None and sn[1] is not None
                           and sn[1][1] == id(procs['idle']))
+        if 'daughter_state' in checks:
+            d0, d1, mo = checks['daughter_state']
+            cr.append(EQ(_get(val, d0), vnew))            # listed state wins
+            cr.append(EQ(_get(val, d1), before[mo][1]))   # mother's value
         if 'moved' in checks:
             src, dst = checks['moved']
             for p, (i, v) in before.items():
